@@ -43,7 +43,7 @@ type c15Doc struct {
 
 var c15Docs = []c15Doc{
 	{"a: 1\n", []string{"--app.config=a=1"}},
-	{"a: 2\n", []string{"--app.config=a=2"}},
+	{"a: 2\n", []string{"positional", "--", "--app.config=a=2"}}, // the loader takes its arguments wherever they stand
 	{"b: 1\n", []string{"--app.config=b=1"}},
 	{"c:\n  d: 1\n", []string{"--app.config=c.d=1"}},
 	{"c:\n  e: 2\n", []string{"--app.config=c.e=2"}},
